@@ -9,9 +9,9 @@ class CPoolSpec(Spec):
     shrink_groups = (('nclients', 'client_tenant', ()),)
     wall_cap = {'quick': 1200, 'thorough': 7200}
     strata = {
-        'quick': [('core', 5), ('nofault', 3), ('cancel', 1), ('cancel_batch', 1), ('poolfault', 1),
+        'quick': [('core', 5), ('nofault', 3), ('keyed', 1), ('cancel', 1), ('cancel_batch', 1), ('poolfault', 1),
                   ('remote', 3), ('remote_nofault', 2), ('remote_cancel', 1), ('remote_restart', 2)],
-        'thorough': [('core', 5), ('nofault', 3), ('cancel', 1), ('cancel_batch', 1), ('poolfault', 1),
+        'thorough': [('core', 5), ('nofault', 3), ('keyed', 1), ('cancel', 1), ('cancel_batch', 1), ('poolfault', 1),
                      ('remote', 3), ('remote_nofault', 2), ('remote_cancel', 1), ('remote_restart', 2)],
     }
     runs = {'quick': 64000, 'thorough': 2400000}
@@ -33,6 +33,7 @@ class CPoolSpec(Spec):
             'process itself dies (with its workers and every link) and is started again 1-2 times per run while sessions hold transactions open; E3 is checked on both hops. '
             'Other strata: one run = one seeded world (pool kind fixed/adaptive/multitenant, 1-3 workers, 1-3 tenants, 1-3 databases, 1-5 '
             'concurrent clients x 2-11 requests, state mutations between requests, drawn service latencies, fault kinds enabled '
+            'per run; stratum keyed: configuration values that compare equal by key only, like composite config values; cancel_batch: several requests per socket read; '
             'per run); oracles E1 (echo of what the compiler entry point received vs what the caller passed), E2 (errors '
             'attributable to injected faults), E3 (server belief == worker globals) after every completed call; non-trivial = at '
             'least one state mutation or two overlapping requests; distinct = distinct 64-bit digests of the abstract event '
@@ -333,6 +334,15 @@ MUTANTS = [
     {'name': 'revert_fix_failed_sync_uncertain', 'reverts': 'C17-remote-failed-sync', 'strata': ['remote', 'remote_cancel'],
      'patches': [(PF, _F4_NEW, _F4_OLD)]},
     # the two halves of the request-state fix, one at a time
+    {'name': 'revert_fix_pickle_memoized_by_identity', 'reverts': 'C17-pickle-memoized-by-equality', 'strata': ['keyed'],
+     'patches': [(PF, """def _pickle_memoized(schema):
+    # Memoize by identity""", """@functools.lru_cache()
+def _pickle_memoized(schema):
+    return pickle.dumps(schema, -1)
+
+
+def _pickle_memoized_by_identity(schema):
+    # Memoize by identity""")]},
     {'name': 'revert_fix_remote_state_id_base', 'reverts': 'C17-remote-server-restart-state-id', 'strata': ['remote_restart'],
      'patches': [(SF, """_tx_state_id_seq = secrets.randbits(62)
 """, """_tx_state_id_seq = 0
